@@ -1112,6 +1112,13 @@ namespace bloch::runtime {
                                ? std::optional<int>(0)
                                : std::nullopt;
                 }
+            case Value::Type::LongArray:
+            case Value::Type::FloatArray:
+                // an array literal of ints is a long[] / float[] where one is declared (the analyser
+                // admits only literals here); it is converted when the parameter is bound
+                if (actual.type == expected.kind)
+                    return 0;
+                return actual.type == Value::Type::IntArray ? std::optional<int>(1) : std::nullopt;
             default:
                 return actual.type == expected.kind ? std::optional<int>(0) : std::nullopt;
         }
